@@ -21,6 +21,9 @@ import time
 import traceback
 
 ROOT = os.path.dirname(os.path.dirname(os.path.abspath(__file__)))
+# development aid (tools/seed_recheck.sh): evidence and replay files of runs against scratch copies go elsewhere, so that
+# /verif/evidence always describes a run against /repo itself
+OUT = os.environ.get("VERIF_OUT", ROOT)
 
 
 def load_json(path, default):
@@ -43,7 +46,7 @@ def main(argv):
     seed = int(os.environ.get("VERIF_SEED", "0"))
     update_baseline = "--update-baseline" in argv
     t0 = time.time()
-    os.makedirs(os.path.join(ROOT, "evidence"), exist_ok=True)
+    os.makedirs(os.path.join(OUT, "evidence"), exist_ok=True)
     os.makedirs(os.environ.setdefault("VERIF_TMP", "/var/tmp"), exist_ok=True)
 
     from pyvc import run as pyrun
@@ -201,14 +204,14 @@ def main(argv):
             new_violations.append(v)
 
     # ---- report
-    rdir = os.path.join(ROOT, "replays", pid)
+    rdir = os.path.join(OUT, "replays", pid)
     os.makedirs(rdir, exist_ok=True)
     for old in os.listdir(rdir):  # replay files always describe the latest run
         if old.endswith(".json"):
             os.unlink(os.path.join(rdir, old))
     out_lines = []
     for v in new_violations:
-        path = os.path.join(ROOT, "replays", pid, sanitize(v["sig"]) + ".json")
+        path = os.path.join(OUT, "replays", pid, sanitize(v["sig"]) + ".json")
         with open(path, "w") as f:
             json.dump({"property": pid, **v}, f, indent=1, default=str)
         suffix = "" if v.get("replayed", True) else " no-failing-input-found"
@@ -263,7 +266,7 @@ def main(argv):
         "known_findings": known_lines,
         "check_broken": broken,
     }
-    with open(os.path.join(ROOT, "evidence", f"{pid}.json"), "w") as f:
+    with open(os.path.join(OUT, "evidence", f"{pid}.json"), "w") as f:
         json.dump(ev, f, indent=1, default=str)
 
     print(f"[{pid}] tier={tier} obligations={n_ob} discharged={n_proved} refuted={len(refuted)} undecided={len(undecided)} "
